@@ -43,7 +43,7 @@ if ! build "$BIN"; then
 fi
 
 case "$ID" in
-  C03|C14)
+  C03)
     RBIN="$BINDIR/ruxmon-race"
     if ! build "$RBIN" -race; then
       echo "BROKEN property=$ID: the -race build failed (see work/build.$ID.log)"
